@@ -123,10 +123,25 @@ def build_file(case):
         idx['syminfo'] = len(secs)
         secs.append({'name': '.SUNW_syminfo', 'sh_type': 0x6ffffffc, 'sh_link': P + 2, 'sh_entsize': 4,
                      'data': b''.join(struct.pack(W.E(le) + 'HH', b, f) for (b, f) in case['syminfo'])})
+    twin = case.get('twin')
+    if twin:
+        # neighbours of the table (round 8): an empty symbol table whose nominal offset is that of the real one (what a writer that lays
+        # section bodies out one after another produces), or a second table of other symbols that shares the string table
+        idx['twin'] = len(secs)
+        if twin['kind'] == 'empty':
+            secs.append({'name': '.symtab', 'sh_type': twin['type'], 'data': None, 'sh_offset': 0, 'sh_size': 0, 'sh_entsize': W.SYM_SIZE[cls],
+                         'sh_link': P + 1, 'sh_info': 0})
+        else:
+            tsyms = [syms[i] for i in twin['pick']]
+            secs.append({'name': '.symtab', 'sh_type': twin['type'], 'sh_entsize': W.SYM_SIZE[cls], 'sh_link': P + 1, 'sh_info': 1,
+                         'data': b''.join(W.enc_sym(cls, le, offs[t['name']], t['value'], t['size'], t['info'], t['other'], t['shndx']) for t in tsyms)})
     secs.append({'name': '.shstrtab', 'sh_type': 3, 'data': b''})
     m = {'cls': cls, 'le': le, 'e_type': 3, 'e_machine': case.get('e_machine', 62), 'osabi': case.get('osabi', 0), 'sections': secs,
          'shstrndx': len(secs) - 1, 'order': case.get('order'), 'gaps': case.get('gaps', {}), 'tail': case.get('tail', 0)}
     data, R = W.build(m)
+    if twin and twin['kind'] == 'empty':
+        secs[idx['twin']]['sh_offset'] = R['sh'][P + 2]['sh_offset'] + (twin.get('at_end') and R['sh'][P + 2]['sh_size'] or 0)
+        data, R = W.build(m)
     return data, R, idx
 
 
@@ -315,12 +330,38 @@ def run_case(ctx, case):
                     by_name()
         except Exception as e:  # noqa
             ctx.fail_exc('symtab|iter|lookups-inside-first-walk', e, case)
+    def twin_by_name(when):
+        tw = case.get('twin')
+        if not tw:
+            return
+        try:
+            t2 = ef.get_section(idx['twin'])
+            tb = {}
+            for k, i in enumerate(tw['pick'] if tw['kind'] == 'second' else []):
+                tb.setdefault(syms[i]['name'], []).append(i)
+            if t2.num_symbols() != len(tw.get('pick', [])):
+                ctx.fail('twin|num_symbols|' + tw['kind'], '%s: expected %d got %r' % (when, len(tw.get('pick', [])), t2.num_symbols()), case)
+            for q in queries:
+                got = t2.get_symbol_by_name(q)
+                exp = tb.get(q)
+                if (got is None) != (exp is None) or (got is not None and (len(got) != len(exp) or any(
+                        g.name != q or g['st_value'] != syms[i]['value'] & M for g, i in zip(got, exp)))):
+                    ctx.fail('twin|by_name|%s|%s' % (tw['kind'], when), 'query %r on the neighbouring table (%s): expected the symbols %r of the main table, got %s' % (
+                        q, tw['kind'], exp, 'None' if got is None else [(g.name, g['st_value']) for g in got]), case)
+            ctx.count('twin.%s.%s' % (tw['kind'], when))
+        except Exception as e:  # noqa
+            ctx.fail_exc('twin|' + tw['kind'], e, case)
+
+    if case.get('twin') and case['twin'].get('first'):
+        twin_by_name('asked-first')
     if first_use in (1, 2):
         by_name()
         sequential()
     else:
         sequential()
         by_name()
+    if case.get('twin'):
+        twin_by_name('asked-after')
     for i in case.get('probe', []):
         if i < n:
             try:
@@ -512,6 +553,13 @@ def build_case(ch, tier, n=None):
         case['shndx_table'] = [ch.int(0, 0x20000) if s['shndx'] == 0xffff else 0 for s in syms]
     if hashable and ch.bool(0.3):
         case['syminfo'] = [[ch.choice([0xffff, 0xfffe, 0xfffd, 0xff00, ch.int(0, 0xffff)]), ch.word(16)] for _ in syms]
+    if ch.bool(0.3):
+        k = ch.choice(['empty', 'empty', 'second'])
+        case['twin'] = {'kind': k, 'type': ch.choice([2, 11]), 'first': ch.bool(0.5)}
+        if k == 'empty':
+            case['twin']['at_end'] = ch.bool(0.3)
+        else:
+            case['twin']['pick'] = [0] + [i for i in ch.perm(list(range(1, n))) if ch.bool(0.5)][:40]
     present = sorted(set(names))
     qs = ch.perm(present)[:25]
     absent = [p for p in POOL if p not in present]
